@@ -1,50 +1,324 @@
-//! Later-phase monitors: membership (C09, C12), flow control (C13, C18), transfer (C17),
-//! quorum arithmetic (C11), snapshots (C15), pre-vote (C16), logical log (C14), and the
-//! compound scenario actions (Stabilise: C10/C17; Lockstep: C16).
+//! Membership monitors: C09 (discipline), C12 (algebra), reference configuration folding,
+//! snapshot install effect (C15.install_effect).
 
-use raft::eraftpb::{Entry, Snapshot};
+use raft::eraftpb::{ConfChangeTransition, ConfChangeV2, Entry, EntryType, MessageType, Snapshot};
+use raft::{GetEntriesContext, StateRole};
 
 use crate::action::*;
+use crate::refmodel::{disjoint_quorums, RefConf};
 use crate::world::*;
 
+fn empty_normal_digest() -> u64 {
+    entry_digest(&Entry::default())
+}
+
 impl World {
-    pub fn check_membership_call(&mut self, _c: &CallCtx) -> VResult<()> {
+    /// CL grew by index i: fold the reference configuration R over the committed log.
+    pub fn fold_ref_conf(&mut self, i: u64) -> VResult<()> {
+        let e = self.ghost.cl_get(i).unwrap().clone();
+        if !e.is_conf {
+            return Ok(());
+        }
+        // fetch the actual entry from the reporting node's log
+        let ent = {
+            let node = &self.nodes[&e.reporter];
+            match node.raw.as_ref() {
+                Some(raw) => raw.raft.raft_log.slice(i, i + 1, None, GetEntriesContext::empty(false)).ok().and_then(|v| v.into_iter().next()),
+                None => None,
+            }
+        };
+        let ent = match ent {
+            Some(x) => x,
+            None => return Ok(()),
+        };
+        let prev = self.ghost.ref_conf_at(i.saturating_sub(1)).clone();
+        let next = match decode_conf_entry(&ent) {
+            Some(cc) => prev.apply(&cc).unwrap_or(prev),
+            None => prev,
+        };
+        self.ghost.ref_conf.insert(i, next);
         Ok(())
     }
-    pub fn check_flow(&mut self, _c: &CallCtx) -> VResult<()> {
+
+    fn conf_entries_between(node: &Node, lo_excl: u64, hi_incl: u64) -> Vec<u64> {
+        let mut v = Vec::new();
+        let mut i = lo_excl + 1;
+        while i <= hi_incl {
+            if let Some((_, _, true)) = Self::log_at(node, i) {
+                v.push(i);
+            }
+            i += 1;
+        }
+        v
+    }
+
+    pub fn check_membership_call(&mut self, c: &CallCtx) -> VResult<()> {
+        let n = c.n;
+        let is_new = matches!(c.kind, CallKind::New);
+        // ------------------------------------------------------------ C09.one_at_a_time
+        // a node that leads (same term) appended conf-typed entries in this call
+        let leads = c.post.role == StateRole::Leader;
+        if leads && !is_new {
+            let node = &self.nodes[&n];
+            let new_u = &node.unst;
+            let old_last = if c.pre.role == StateRole::Leader && c.pre.term == c.post.term { c.pre.last_index } else { c.pre.last_index.min(c.post.last_index) };
+            for i in (old_last + 1)..=c.post.last_index {
+                if i < new_u.offset {
+                    continue;
+                }
+                let e = match new_u.ents.get((i - new_u.offset) as usize) {
+                    Some(e) => e,
+                    None => continue,
+                };
+                if e.0 != c.post.term || !e.2 {
+                    continue;
+                }
+                *self.stats.entry("chk.C09.one_at_a_time").or_insert(0) += 1;
+                let others = Self::conf_entries_between(node, c.post.applied, i - 1);
+                if !others.is_empty() {
+                    let d = format!(
+                        "leader {n} of term {} appended a membership entry at index {i} while membership entries at {:?} are beyond its applied index {} (call {})",
+                        c.post.term, others, c.post.applied, kind_name(c.kind)
+                    );
+                    return Err(self.violation("C09", "C09.one_at_a_time", n, d, "second_pending_conf_entry".into()));
+                }
+            }
+        }
+        // ------------------------------------------------------------ C09.neutralised_not_dropped
+        let proposed: Option<(Vec<Option<ConfChangeV2>>, bool)> = match c.kind {
+            CallKind::ProposeConf { cc, .. } => Some((vec![Some(cc.clone())], true)),
+            CallKind::Step(m) if m.get_msg_type() == MessageType::MsgPropose && m.entries.iter().any(is_conf_entry) => {
+                Some((m.entries.iter().map(|e| if is_conf_entry(e) { decode_conf_entry(e) } else { None }).collect(), false))
+            }
+            _ => None,
+        };
+        if let Some((ccs, _direct)) = proposed {
+            if c.pre.role == StateRole::Leader && c.post.role == StateRole::Leader && c.pre.term == c.post.term && c.err.is_none() {
+                *self.stats.entry("chk.C09.neutralised_not_dropped").or_insert(0) += 1;
+                let node = &self.nodes[&n];
+                if c.post.last_index != c.pre.last_index + ccs.len() as u64 {
+                    let d = format!("leader {n} accepted a proposal of {} entries but its log grew from {} to {}", ccs.len(), c.pre.last_index, c.post.last_index);
+                    return Err(self.violation("C09", "C09.neutralised_not_dropped", n, d, "proposal_entry_count".into()));
+                }
+                let mut joint = c.pre.conf.joint();
+                let _ = &mut joint;
+                for (k, cc) in ccs.iter().enumerate() {
+                    let cc = match cc {
+                        Some(x) => x,
+                        None => continue,
+                    };
+                    let i = c.pre.last_index + 1 + k as u64;
+                    let got = Self::log_at(node, i);
+                    let (_, dg, is_conf) = match got {
+                        Some(x) => x,
+                        None => continue,
+                    };
+                    let want_leave = cc.get_changes().is_empty();
+                    if is_conf {
+                        let pending = Self::conf_entries_between(node, c.pre.applied, i - 1);
+                        let bad = if !pending.is_empty() {
+                            Some("an earlier membership entry is still unapplied")
+                        } else if c.pre.conf.joint() && !want_leave {
+                            Some("the configuration is joint and the change is not a leave")
+                        } else if !c.pre.conf.joint() && want_leave {
+                            Some("the configuration is not joint and the change is a leave")
+                        } else {
+                            None
+                        };
+                        if let Some(why) = bad {
+                            let d = format!("leader {n} kept membership proposal at index {i} as a membership entry although {why}");
+                            return Err(self.violation("C09", "C09.neutralised_not_dropped", n, d, "conf_not_neutralised".into()));
+                        }
+                    } else if dg != empty_normal_digest() {
+                        let d = format!("leader {n} replaced a membership proposal at index {i} by something that is not an empty normal entry");
+                        return Err(self.violation("C09", "C09.neutralised_not_dropped", n, d, "neutralised_not_empty".into()));
+                    } else {
+                        *self.stats.entry("conf_proposals_neutralised").or_insert(0) += 1;
+                    }
+                }
+            }
+        }
+        // ------------------------------------------------------------ campaign start
+        let started = !is_new
+            && ((c.pre.role == StateRole::Follower && c.post.role != StateRole::Follower)
+                || (c.pre.role == StateRole::Candidate && c.post.role == StateRole::Candidate && c.post.term > c.pre.term));
+        if started {
+            let node = &self.nodes[&n];
+            *self.stats.entry("chk.C09.no_campaign_with_unapplied_conf").or_insert(0) += 1;
+            let lo = c.pre.applied.max(c.pre.snap_index).max(c.pre.first_index.saturating_sub(1));
+            // the committed prefix is immutable within the call, so the post-call shadow serves
+            let pending = Self::conf_entries_between(node, lo, c.pre.commit);
+            if !pending.is_empty() {
+                let d = format!(
+                    "node {n} started an election (now {:?} at term {}) while committed membership entries {:?} are unapplied (applied {}, commit {}) in {}",
+                    c.post.role, c.post.term, pending, c.pre.applied, c.pre.commit, kind_name(c.kind)
+                );
+                return Err(self.violation("C09", "C09.no_campaign_with_unapplied_conf", n, d, "campaign_with_unapplied_conf".into()));
+            }
+            let on_its_own = matches!(c.kind, CallKind::Tick) || matches!(c.kind, CallKind::Step(m) if m.get_msg_type() == MessageType::MsgTimeoutNow);
+            if on_its_own {
+                *self.stats.entry("chk.C09.only_voters_campaign").or_insert(0) += 1;
+                if !c.pre.conf.is_voter(n) {
+                    let d = format!("node {n} is not a voter of its configuration {:?} but started an election in {}", c.pre.conf, kind_name(c.kind));
+                    return Err(self.violation("C09", "C09.only_voters_campaign", n, d, "non_voter_campaigned".into()));
+                }
+            }
+        }
+        // ------------------------------------------------------------ C12 at every apply_conf_change
+        if let CallKind::ApplyConf { index, cc } = c.kind {
+            self.check_conf_algebra(c, *index, cc)?;
+        }
+        // ------------------------------------------------------------ C12.restore_roundtrip at restart
+        if is_new {
+            *self.stats.entry("chk.C12.restore_roundtrip").or_insert(0) += 1;
+            let want = ConfShape::from_cs(&self.nodes[&n].sm.cs);
+            if want != c.post.conf {
+                let d = format!("node {n} restored configuration {:?} from ConfState {:?}", c.post.conf, want);
+                return Err(self.violation("C12", "C12.restore_roundtrip", n, d, "restore_mismatch".into()));
+            }
+            self.check_conf_invariants(n, &c.post.conf, &c.post.prs_keys)?;
+            // C09: nodes at the same applied index have identical configurations, also after restart
+            let applied = self.nodes[&n].sm.applied;
+            if applied <= self.ghost.cl_max() && applied >= self.ghost.base {
+                *self.stats.entry("chk.C09.config_is_function_of_applied").or_insert(0) += 1;
+                let r = self.ghost.ref_conf_at(applied).to_shape();
+                if r != c.post.conf {
+                    let d = format!("node {n} restarted at applied index {applied} with configuration {:?}; the membership entries up to there give {:?}", c.post.conf, r);
+                    return Err(self.violation("C09", "C09.config_is_function_of_applied", n, d, "restart_conf_mismatch".into()));
+                }
+            }
+        }
         Ok(())
     }
-    pub fn check_transfer(&mut self, _c: &CallCtx) -> VResult<()> {
+
+    fn check_conf_invariants(&mut self, n: NodeId, s: &ConfShape, prs_keys: &[u64]) -> VResult<()> {
+        *self.stats.entry("chk.C12.invariants").or_insert(0) += 1;
+        let r = RefConf::from_shape(s);
+        if let Err(e) = r.invariants() {
+            let d = format!("node {n}: configuration {:?} breaks an invariant: {e}", s);
+            return Err(self.violation("C12", "C12.invariants", n, d, "conf_invariant".into()));
+        }
+        let members: Vec<u64> = r.members().into_iter().collect();
+        if members != prs_keys {
+            let d = format!("node {n}: progress is tracked for {:?} but the members are {:?}", prs_keys, members);
+            return Err(self.violation("C12", "C12.invariants", n, d, "progress_keys".into()));
+        }
         Ok(())
     }
-    pub fn check_quorum_math(&mut self, _c: &CallCtx) -> VResult<()> {
+
+    fn check_conf_algebra(&mut self, c: &CallCtx, index: u64, cc: &ConfChangeV2) -> VResult<()> {
+        let n = c.n;
+        let before = RefConf::from_shape(&c.pre.conf);
+        let want = before.apply(cc);
+        *self.stats.entry("chk.C12.matches_reference").or_insert(0) += 1;
+        match (&want, &c.err) {
+            (Ok(w), None) => {
+                if w.to_shape() != c.post.conf {
+                    let d = format!("node {n}: applying {:?} at index {index} to {:?} gave {:?}, reference gives {:?}", cc, c.pre.conf, c.post.conf, w.to_shape());
+                    return Err(self.violation("C12", "C12.matches_reference", n, d, "conf_result_mismatch".into()));
+                }
+            }
+            (Err(_), Some(_)) => {}
+            (Ok(w), Some(e)) => {
+                let d = format!("node {n}: change {:?} at index {index} on {:?} was rejected ({e}) but the reference accepts it giving {:?}", cc, c.pre.conf, w.to_shape());
+                return Err(self.violation("C12", "C12.matches_reference", n, d, "conf_wrongly_rejected".into()));
+            }
+            (Err(e), None) => {
+                let d = format!("node {n}: change {:?} at index {index} on {:?} was accepted giving {:?} but must be rejected ({e})", cc, c.pre.conf, c.post.conf);
+                return Err(self.violation("C12", "C12.matches_reference", n, d, "conf_wrongly_accepted".into()));
+            }
+        }
+        if c.err.is_some() {
+            *self.stats.entry("chk.C12.error_is_atomic").or_insert(0) += 1;
+            if c.pre.conf != c.post.conf || c.pre.prs_keys != c.post.prs_keys {
+                let d = format!("node {n}: rejected change {:?} altered the configuration {:?} -> {:?}", cc, c.pre.conf, c.post.conf);
+                return Err(self.violation("C12", "C12.error_is_atomic", n, d, "rejected_change_altered".into()));
+            }
+            return Ok(());
+        }
+        self.check_conf_invariants(n, &c.post.conf, &c.post.prs_keys)?;
+        let leave = cc.get_transition() == ConfChangeTransition::Auto && cc.get_changes().is_empty();
+        let enter = cc.get_transition() != ConfChangeTransition::Auto || cc.get_changes().len() > 1;
+        if !leave && !enter {
+            *self.stats.entry("chk.C12.simple_changes_one_voter").or_insert(0) += 1;
+            let a: std::collections::BTreeSet<u64> = c.pre.conf.voters.iter().cloned().collect();
+            let b: std::collections::BTreeSet<u64> = c.post.conf.voters.iter().cloned().collect();
+            if a.symmetric_difference(&b).count() > 1 {
+                let d = format!("node {n}: simple change {:?} altered the voters {:?} -> {:?}", cc, c.pre.conf.voters, c.post.conf.voters);
+                return Err(self.violation("C12", "C12.simple_changes_one_voter", n, d, "simple_change_two_voters".into()));
+            }
+        }
+        *self.stats.entry("chk.C12.quorum_overlap").or_insert(0) += 1;
+        let after = RefConf::from_shape(&c.post.conf);
+        if let Some((s1, s2)) = disjoint_quorums(&before, &after) {
+            let d = format!("node {n}: change {:?}: {:?} decides in {:?} while the disjoint {:?} decides in {:?}", cc, s1, c.pre.conf, s2, c.post.conf);
+            return Err(self.violation("C12", "C12.quorum_overlap", n, d, "disjoint_quorums".into()));
+        }
+        if c.pre.conf.joint() != c.post.conf.joint() {
+            self.bump(if c.post.conf.joint() { "joint_entered" } else { "joint_left" });
+        }
         Ok(())
     }
-    pub fn check_snapshot_call(&mut self, _c: &CallCtx) -> VResult<()> {
+
+    /// After the application applied entry e (C09.config_is_function_of_applied).
+    pub fn check_conf_after_apply(&mut self, n: NodeId, e: &Entry) -> VResult<()> {
+        if !is_conf_entry(e) {
+            return Ok(());
+        }
+        let shape = self.nodes[&n].obs.conf.clone();
+        *self.stats.entry("chk.C09.config_is_function_of_applied").or_insert(0) += 1;
+        match self.ghost.conf_at.get(&e.index) {
+            Some(s) if *s != shape => {
+                let d = format!("node {n} has configuration {:?} after applying index {}; another node had {:?} at the same applied index", shape, e.index, s);
+                return Err(self.violation("C09", "C09.config_is_function_of_applied", n, d, "conf_differs_between_nodes".into()));
+            }
+            Some(_) => {}
+            None => {
+                self.ghost.conf_at.insert(e.index, shape.clone());
+            }
+        }
+        if e.index <= self.ghost.cl_max() {
+            let r = self.ghost.ref_conf_at(e.index).to_shape();
+            if r != shape {
+                let d = format!("node {n} has configuration {:?} after applying index {}; the membership entries up to there give {:?}", shape, e.index, r);
+                return Err(self.violation("C09", "C09.config_is_function_of_applied", n, d, "conf_differs_from_reference".into()));
+            }
+        }
+        // the application's ConfState is what apply_conf_change returned
+        let app = ConfShape::from_cs(&self.nodes[&n].sm.cs);
+        if app != shape && e.get_entry_type() != EntryType::EntryNormal {
+            // a rejected change leaves both untouched; an accepted one updates both
+            let d = format!("node {n}: ConfState returned by apply_conf_change {:?} differs from the active configuration {:?}", app, shape);
+            return Err(self.violation("C12", "C12.restore_roundtrip", n, d, "returned_confstate_mismatch".into()));
+        }
         Ok(())
     }
-    pub fn check_prevote_terms(&mut self, _c: &CallCtx) -> VResult<()> {
-        Ok(())
-    }
-    pub fn check_lockstep_invariant(&mut self, _c: &CallCtx) -> VResult<()> {
-        Ok(())
-    }
-    pub fn check_conf_after_apply(&mut self, _n: NodeId, _e: &Entry) -> VResult<()> {
-        Ok(())
-    }
-    pub fn check_snapshot_effect(&mut self, _n: NodeId, _s: &Snapshot) -> VResult<()> {
-        Ok(())
-    }
-    pub fn check_logical_log(&mut self, _n: NodeId) -> VResult<()> {
-        Ok(())
-    }
-    pub fn fold_ref_conf(&mut self, _i: u64) -> VResult<()> {
-        Ok(())
-    }
-    pub fn stabilise(&mut self, _seed: u64, _transfer: bool) -> VResult<()> {
-        Ok(())
-    }
-    pub fn lockstep_round(&mut self, _majority: &[NodeId]) -> VResult<()> {
+
+    /// After the application installed `snap` (C15.install_effect, configuration part).
+    pub fn check_snapshot_effect(&mut self, n: NodeId, snap: &Snapshot) -> VResult<()> {
+        let idx = snap.get_metadata().index;
+        let cs_shape = ConfShape::from_cs(snap.get_metadata().get_conf_state());
+        let node = &self.nodes[&n];
+        let o = &node.obs;
+        if o.conf != cs_shape {
+            let d = format!("node {n}: configuration after accepting the snapshot at {idx} is {:?}, the snapshot says {:?}", o.conf, cs_shape);
+            return Err(self.violation("C12", "C12.restore_roundtrip", n, d, "snapshot_restore_mismatch".into()));
+        }
+        if idx <= self.ghost.cl_max() {
+            let r = self.ghost.ref_conf_at(idx).to_shape();
+            if r != cs_shape {
+                let d = format!("node {n}: snapshot at {idx} carries configuration {:?}; applying the log up to {idx} gives {:?}", cs_shape, r);
+                return Err(self.violation("C15", "C15.install_effect", n, d, "snapshot_conf_mismatch".into()));
+            }
+        }
+        if o.commit < idx {
+            let d = format!("node {n}: commit {} is behind the installed snapshot {idx}", o.commit);
+            return Err(self.violation("C15", "C15.install_effect", n, d, "commit_behind_snapshot".into()));
+        }
+        if Self::term_at(node, idx) != Some(snap.get_metadata().term) {
+            let d = format!("node {n}: log boundary term at {idx} is {:?}, snapshot term {}", Self::term_at(node, idx), snap.get_metadata().term);
+            return Err(self.violation("C15", "C15.install_effect", n, d, "boundary_term_mismatch".into()));
+        }
         Ok(())
     }
 }
